@@ -69,7 +69,7 @@ func VHIter() {
 // VHEnum: Each/Any/All/Find/Select/Map with arbitrary predicate and mapping functions (C14).
 func VHEnum() {
 	l, _ := VGList()
-	containers.VEnumStep(containers.VEnum{Recv: l, Indexed: true,
+	containers.VEnumStep(containers.VEnum{Recv: l, Inv: func(c any) { VInv(c.(*List[int])) }, Indexed: true,
 		Seq:    func(c any) ([]int, []int) { vs := c.(*List[int]).Values(); return containers.VIdx(len(vs)), vs },
 		Each:   l.Each, Any: l.Any, All: l.All, Find: l.Find,
 		Select: func(f func(a, b int) bool) any { return l.Select(f) },
@@ -118,4 +118,10 @@ func VHJSONRound() {
 func VHJSONLoad() {
 	c, _ := VGList()
 	containers.VJSONLoad(vJSON(c))
+}
+
+// VHHistory: D operations in a row from the constructor (see VMapHistory).
+func VHHistory() {
+	l := New[int]()
+	lists.VSeqHistory(l, lists.VExt{Name: "SinglyLinkedList", Append: l.Append, Prepend: l.Prepend, IndexOf: l.IndexOf, Inv: func() { VInv(l) }})
 }
